@@ -8,7 +8,7 @@ from vf.core import call, exc_desc
 from vf.lazy import ck, libx, common, np
 
 PROP = "C19"
-TECHNIQUE = ('exhaustive enumeration of the validation grid (3^12 / 4^12 tuples) through the real constructor + runtime monitoring of scaling (snapshots, score homogeneity) and of equivalence / nickname on pairs with known truth; valid schemes given as numpy floats / float and int subclasses; homogeneity under factors 2^-40 .. 2^20')
+TECHNIQUE = ('exhaustive enumeration of the validation grid (3^12 / 4^12 tuples) through the real constructor + runtime monitoring of scaling (snapshots, score homogeneity) and of equivalence / nickname on pairs with known truth; valid schemes given as numpy floats / float and int subclasses; homogeneity under factors 2^-40 .. 2^20; schemes already used (scores, aggregation, nickname) when they are scaled')
 RULE = ("(a) validation: EXHAUSTIVE grid of 12-tuples over {0,1,2} (3^12 = 531441, quick) / {0,1/2,1,2} (4^12 = 16.7M, "
         "thorough), accepted <=> predicate of the statement, rejection class = the documented one; plus malformed shapes "
         "and types (single fault each); (b) scaling: new object, original untouched, every entry multiplied, Kemeny scores "
